@@ -28,6 +28,7 @@ def run(ctx):
     ctx.do(CA.rule_c2, "ProjectiveObject", scope=ctx.scope(ENTRIES))
     ctx.do(CA.rule_cls1, "ProjectiveObject")
     ctx.do(P.rule_fr1, accessors=False)
+    ctx.do(P.rule_ts1)
     ctx.do(SH.rule_sh3)
     ctx.do(SH.rule_sh7, only={
         "Polygon.flatten_to_unit", "Polygon.reshape", "Polygon.astype",
